@@ -4,4 +4,5 @@ MCQ == @Q@
 MCKinds == @KINDS@
 MCSCtxs == @SCTXS@
 MCFCtxs == @FCTXS@
+MCFaults == @FAULTS@
 =============================================================================
